@@ -47,8 +47,9 @@ class Effects:
         r"^logging\.\w+$",
         r"(^|\.)_loop\.(time|create_task|call_later|call_soon)$",
         r"^loop\.(time|create_task)$",
-        r"^task\.(add_done_callback|cancel|done|cancelled)$",
-        r"^t\.cancel$",
+        # methods of asyncio.Task / Event and of the builtin containers, whatever the receiver is called
+        r"(^|\.)\w+\.(add_done_callback|cancel|done|cancelled)$",
+        r"(^|\.)\w+\.(add|discard|append|appendleft|clear|union|copy|extend|is_set)$",
         r"^asyncio\.(sleep|as_completed|current_task|get_running_loop|Event|gather)$",
         r"(^|\.)_writer\.(write|close|is_closing)$",
         r"(^|\.)_(background_tasks|connection_subscribers|message_subscribers|subscribers|subscribers_ac_state)\.(add|discard|union)$",
